@@ -35,6 +35,8 @@ type wCfg struct {
 	PageBuf string `json:"pagebuf"`
 	WBuf    string `json:"wbuf"`
 	Stats   string `json:"stats"`
+	Bloom   string `json:"bloom,omitempty"` // "" | "on" | "deferred"
+	Sort    string `json:"sort,omitempty"`  // "" | "declared": sorting columns recorded in the file
 }
 
 type c01Scenario struct {
@@ -271,6 +273,17 @@ func wOptions(c wCfg, r *rng) []parquet.WriterOption {
 		opts = append(opts, parquet.WriteBufferSize(0))
 	case "small":
 		opts = append(opts, parquet.WriteBufferSize(61))
+	}
+	switch c.Bloom {
+	case "on", "deferred":
+		opts = append(opts, parquet.BloomFilters(parquet.SplitBlockFilter(10, "id"), parquet.SplitBlockFilter(10, "sd"), parquet.SplitBlockFilter(10, "f5")))
+		if c.Bloom == "deferred" {
+			opts = append(opts, parquet.DeferBloomFiltersWithBuffers(parquet.NewBufferPool()))
+		}
+	}
+	if c.Sort == "declared" {
+		// ids are written in increasing order, so the declaration is truthful
+		opts = append(opts, parquet.SortingWriterConfig(parquet.SortingColumns(parquet.Ascending("id"), parquet.Descending("i64"))), parquet.KeyValueMetadata("origin", "vh"))
 	}
 	switch c.Stats {
 	case "off":
